@@ -220,9 +220,9 @@ def error_case(draw):
         absolute = draw(st.sampled_from([0.0, 0.5, 3.0]))
         rel = draw(st.sampled_from([0.0, 0.5, 1.0]))
     elif which == "rel_low":
-        rel = -draw(st.sampled_from([5e-324, 1e-12, 0.5, 3.0]))
+        rel = -draw(st.sampled_from([5e-324, 1e-12, 0.5, 3.0, 1e300, 1.7e308, "inf"]).map(float))
     elif which == "rel_high":
-        rel = 1 + draw(st.sampled_from([2.0**-52, 1e-9, 0.5, 10.0]))
+        rel = 1 + draw(st.sampled_from([2.0**-52, 1e-9, 0.5, 10.0, 149.0, 1e300, 1.7e308, "inf"]).map(float))
     elif which == "rel_edge0":
         rel = 0.0
     else:
@@ -236,7 +236,7 @@ def check_errors(spec, ctx):
     if spec["abs"] is not None:
         kw["min_absolute_overlap"] = spec["abs"]
     if spec["rel"] is not None:
-        kw["min_relative_overlap"] = spec["rel"]
+        kw["min_relative_overlap"] = float(spec["rel"])  # +-inf travel as strings in the JSON spec
     must_raise = spec["which"] in ("both", "rel_low", "rel_high")
     ctx.case(spec, nontrivial=True, labels=[spec["which"]])
     try:
@@ -261,9 +261,9 @@ def check_errors(spec, ctx):
 
 @st.composite
 def geom_pair_case(draw):
-    g1 = draw(geometry_spec(free_prob=False))
+    g1 = draw(geometry_spec(free_prob=False, invalid_polygons=True))
     # second geometry on the same scales so that overlaps are common: reuse the meta by drawing until scales agree
-    g2 = draw(geometry_spec(free_prob=False))
+    g2 = draw(geometry_spec(free_prob=False, invalid_polygons=True))
     mode = draw(st.sampled_from(["none", "abs", "rel"]))
     thr = None
     if mode == "abs":
@@ -316,7 +316,7 @@ def check_geoms(spec, ctx):
 
 @st.composite
 def clip_case(draw):
-    g = draw(geometry_spec(free_prob=False))
+    g = draw(geometry_spec(free_prob=False, invalid_polygons=True))
     kind, coords = g["type"], g["coordinates"]
     b = ref_bounds(kind, coords)
     step = g["meta"]["ts"] / 64
